@@ -25,6 +25,24 @@ type Live struct {
 	Opts    []ucfg.Option // PathSep("."), VarExp, Env..., Resolve...
 	EnvCfgs []*ucfg.Config
 	Tables  [][]KV
+	EnvOpts []ucfg.Option
+	ResOpts []ucfg.Option
+}
+
+// WithEnvOrder is the option list in which the Env options are given in the order (and as often as) order
+// says: an Env config that is given again counts as added most recently.
+func (l *Live) WithEnvOrder(order []int, noSep bool) []ucfg.Option {
+	opts := []ucfg.Option{}
+	if !noSep {
+		opts = append(opts, ucfg.PathSep("."))
+	}
+	opts = append(opts, ucfg.VarExp)
+	for _, i := range order {
+		if i >= 0 && i < len(l.EnvOpts) {
+			opts = append(opts, l.EnvOpts[i])
+		}
+	}
+	return append(opts, l.ResOpts...)
 }
 
 // NoSep is the same list of Option values without the PathSep option.
@@ -38,19 +56,21 @@ func OptionsLive(envs []*Node, resolvers [][]KV) (*Live, error) {
 			return nil, fmt.Errorf("building an Env config failed: %v", err)
 		}
 		l.EnvCfgs = append(l.EnvCfgs, ec)
-		l.Opts = append(l.Opts, ucfg.Env(ec))
+		l.EnvOpts = append(l.EnvOpts, ucfg.Env(ec))
+		l.Opts = append(l.Opts, l.EnvOpts[len(l.EnvOpts)-1])
 	}
 	l.Tables = append([][]KV(nil), resolvers...)
 	for i := range resolvers {
 		i := i
-		l.Opts = append(l.Opts, ucfg.Resolve(func(name string) (string, parse.Config, error) {
+		l.ResOpts = append(l.ResOpts, ucfg.Resolve(func(name string) (string, parse.Config, error) {
 			for _, kv := range l.Tables[i] {
 				if kv.K == name {
-					return kv.V, parse.DefaultConfig, nil
+					return kv.V, ParseCfg(kv.C), nil
 				}
 			}
 			return "", parse.DefaultConfig, ucfg.ErrMissing
 		}))
+		l.Opts = append(l.Opts, l.ResOpts[len(l.ResOpts)-1])
 	}
 	return l, nil
 }
